@@ -13,6 +13,7 @@ from mc.core.pool import Pool
 from mc.ref import ref7z
 
 MODULE = "mc.checks.c17"
+SENTINEL = b"\xa5\x5a\xc3"  # follows every encoding handed to a reader: consuming too much or too little is visible
 
 
 def _ai():
@@ -33,7 +34,7 @@ def case_number_value(v: int):
         b = f.getvalue()
         if not 1 <= len(b) <= 9:
             out.append(("len", f"{len(b)} bytes"))
-        r = io.BytesIO(b)
+        r = io.BytesIO(b + SENTINEL)
         back = ai.read_uint64(r)
         if back != v or r.tell() != len(b):
             out.append(("write->read", f"wrote {b.hex()} read {back} consumed {r.tell()}"))
@@ -41,7 +42,7 @@ def case_number_value(v: int):
         if rv != v or rp != len(b):
             out.append(("write->ref", f"wrote {b.hex()} reference decodes {rv} consuming {rp}"))
         e = ref7z.enc_number(v)
-        r = io.BytesIO(e)
+        r = io.BytesIO(e + SENTINEL)
         back = ai.read_uint64(r)
         if back != v or r.tell() != len(e):
             out.append(("ref->read", f"reference encoding {e.hex()} read as {back} consumed {r.tell()}"))
@@ -56,7 +57,7 @@ def case_number_encoding(e: bytes):
     out = []
     v, n = ref7z.dec_number(e, 0)
     try:
-        r = io.BytesIO(e)
+        r = io.BytesIO(e + SENTINEL)
         back = ai.read_uint64(r)
         if back != v or r.tell() != n:
             out.append(("encoding->read", f"{e.hex()} means {v} ({n} bytes) but read {back} consuming {r.tell()}"))
@@ -73,10 +74,10 @@ def case_bits(bits, checkall: bool):
         f = io.BytesIO()
         ai.write_boolean(f, bits, all_defined=checkall)
         b = f.getvalue()
-        r = io.BytesIO(b)
+        r = io.BytesIO(b + SENTINEL)
         back = ai.read_boolean(r, len(bits), checkall=checkall)
         if back != bits or r.tell() != len(b):
-            out.append(("write->read", f"{bits} -> {b.hex()} -> {back}"))
+            out.append(("write->read", f"{bits} -> {b.hex()} -> {back} consumed {r.tell()} of {len(b)}"))
         if checkall:
             rb, rp = ref7z.dec_bits_alldef(b, 0, len(bits))
         else:
@@ -85,7 +86,7 @@ def case_bits(bits, checkall: bool):
             out.append(("write->ref", f"{bits} -> {b.hex()} reference reads {rb}"))
         for shortcut in (True, False):
             e = ref7z.enc_bits_alldef(bits, shortcut) if checkall else ref7z.enc_bits(bits)
-            r = io.BytesIO(e)
+            r = io.BytesIO(e + SENTINEL)
             back = ai.read_boolean(r, len(bits), checkall=checkall)
             if back != bits or r.tell() != len(e):
                 out.append(("ref->read", f"reference {e.hex()} for {bits} read as {back}"))
@@ -101,7 +102,7 @@ def case_name(s: str):
         f = io.BytesIO()
         ai.write_utf16(f, s)
         b = f.getvalue()
-        r = io.BytesIO(b)
+        r = io.BytesIO(b + SENTINEL)
         back = ai.read_utf16(r)
         if back != s or r.tell() != len(b):
             out.append(("write->read", f"len {len(s)}: read back differs ({len(back)} chars)"))
@@ -109,7 +110,7 @@ def case_name(s: str):
         if rs != s or rp != len(b):
             out.append(("write->ref", f"len {len(s)}: reference reads {len(rs)} chars"))
         e = ref7z.enc_name(s)
-        r = io.BytesIO(e)
+        r = io.BytesIO(e + SENTINEL)
         back = ai.read_utf16(r)
         if back != s or r.tell() != len(e):
             out.append(("ref->read", f"len {len(s)}: reference encoding read back as {len(back)} chars"))
